@@ -20,6 +20,7 @@ BOR = z3.Function("bor", z3.IntSort(), z3.IntSort(), z3.IntSort())
 BAND = z3.Function("band", z3.IntSort(), z3.IntSort(), z3.IntSort())
 SHL = z3.Function("shl", z3.IntSort(), z3.IntSort(), z3.IntSort())
 POW2 = z3.Function("pow2", z3.IntSort(), z3.IntSort())  # 1 << k (k >= 0)
+INF = z3.Real("float_inf")  # float("inf"): only compared; objective values are assumed finite (below it)
 
 _ufuns: dict[str, object] = {}
 
@@ -101,6 +102,8 @@ class Eval:
         if isinstance(v.t, TSet):
             return set_card(v) > 0
         if isinstance(v.t, TOpt):
+            if isinstance(v.t.t, (TList, TDict, TSet)):
+                return z3.And(z3.Not(opt_is_none(v)), self.truth(opt_val(v)))
             return z3.Not(opt_is_none(v))
         if v.t == NONE:
             return z3.BoolVal(False)
@@ -110,6 +113,10 @@ class Eval:
         if name in self.bound:
             return self.bound[name]
         if name in self.st.vars:
+            ub = getattr(self.st, "unbound", {}).get(name)
+            if ub is not None and not self.spec:
+                # python raises UnboundLocalError when a loop variable is read after a loop that never ran
+                self.ob("unbound-local", z3.Not(ub), None)
             return self.st.vars[name]
         c = self.ex.constant(name)
         if c is not None:
@@ -155,10 +162,13 @@ class Eval:
             if key in self.st.vars:
                 return self.st.vars[key]
             base = None
-            try:
-                base = self.lookup(n.value.id)
-            except Unsupported:
-                pass
+            if n.value.id == "result" and self.result is not None and self.spec:
+                base = self.result
+            else:
+                try:
+                    base = self.lookup(n.value.id)
+                except Unsupported:
+                    pass
             if base is not None:
                 return self.ex.attribute(self, base, n.attr, n)
             c = self.ex.constant(key)
@@ -393,6 +403,9 @@ class Eval:
             if isinstance(n.slice, ast.Constant) and isinstance(n.slice.value, int):
                 return tuple_get(base, n.slice.value % len(base.t.items))
             raise Unsupported("symbolic tuple index")
+        if isinstance(base.t, TU) and base.t.uname == "opaque":
+            self.expr(n.slice)
+            return self.ex.new_sym(base.t, "opq", self.st)
         raise Unsupported(f"subscript on {base.t}")
 
     def e_Tuple(self, n):
